@@ -162,6 +162,12 @@ def _objective(kind, n):
         def noisy(x):
             return float(np.sum(w * (x - 0.25 * t) ** 2) + 1e-3 * math.sin(1e3 * float(np.sum(x))))
         return noisy
+    if kind == "inplace":        # legal but sloppy: works in place on the array it receives
+        def inplace(x):
+            x -= t
+            x *= x
+            return float(np.sum(w * x))
+        return inplace
     if kind == "negsq":          # symmetric about the origin: exact merit ties in the sampling
         def negsq(x):
             return float(-np.sum(x ** 2))
@@ -200,6 +206,9 @@ def _linear(kind, n):
         return [LinearConstraint(a, -1.0, 0.75)]
     if kind == "eq":
         return [LinearConstraint(ones, 0.5, 0.5)]
+    if kind == "mixed":          # one object holding an equality row and an inequality row
+        a2 = np.array([[1.0 if i % 2 == 0 else -0.5 for i in range(n)], [1.0] * n])
+        return [LinearConstraint(a2, np.array([0.25, -np.inf]), np.array([0.25, 1.5]))]
     if kind == "contradictory":
         return [LinearConstraint(ones, -np.inf, -1.0), LinearConstraint(ones, 2.0, np.inf)]
     raise ValueError(kind)
@@ -447,6 +456,10 @@ def _options(opt, nfree, sc, ref=None):
         o["disp"] = True
     elif opt == "npt_2np2":
         o["nb_points"] = 2 * nfree + 2
+    elif opt == "npt_3np1":
+        o["nb_points"] = min(3 * nfree + 1, (nfree + 1) * (nfree + 2) // 2)
+    elif opt == "npt_3np2":
+        o["nb_points"] = min(3 * nfree + 2, (nfree + 1) * (nfree + 2) // 2)
     elif opt == "npt_min":
         o["nb_points"] = nfree + 1
     elif opt == "npt_max":
